@@ -61,14 +61,43 @@ WRAPPER_USERS = {
 }
 
 
+def _private_callees(a, f, seen=None):
+    """private plain functions / methods of f's module that f calls (transitively): the code a maintainer moved out of f"""
+    seen = seen if seen is not None else {}
+    for n in walk_no_defs(f.node):
+        if isinstance(n, ast.Call):
+            h = a.extents.helper_for_call(f, f, n) or a.extents.shared_helper_for_call(f, n)
+            if h is not None and h.qualname not in seen and h is not f:
+                seen[h.qualname] = h
+                _private_callees(a, h, seen)
+    return seen
+
+
+def _stores_cutseen(f) -> bool:
+    return any(isinstance(n, ast.Assign) and any(isinstance(t, ast.Attribute) and t.attr == 'cutseen' for t in n.targets) for n in walk_no_defs(f.node))
+
+
 def _handover_pushers(a):
-    """frame-pushing functions that store into <frame>.cutseen: declared hand-overs (transparent frames), verified by R3"""
+    """frame-pushing functions that store into <frame>.cutseen, themselves or in a private helper they call: declared hand-overs
+    (transparent frames), verified by R3"""
     out = []
     for f in pushing_functions(a):
         if f.qualname.endswith('.cut') or f.name == '__init__':
             continue
-        if any(isinstance(n, ast.Assign) and any(isinstance(t, ast.Attribute) and t.attr == 'cutseen' for t in n.targets) for n in walk_no_defs(f.node)):
+        if _stores_cutseen(f) or any(_stores_cutseen(h) for h in _private_callees(a, f).values()):
             out.append(f)
+    return out
+
+
+def _handover_helpers(a) -> set:
+    """private helpers that store cutseen and are called only from hand-over pushers (their store is verified with the pusher)"""
+    pushers = _handover_pushers(a)
+    allowed = {p.qualname for p in pushers}
+    out = set()
+    for p in pushers:
+        for q, h in _private_callees(a, p).items():
+            if _stores_cutseen(h) and a.callgraph.only_reached_through(q, allowed):
+                out.add(q)
     return out
 
 
@@ -84,7 +113,7 @@ def r1_flag_ownership(a, tier):
         'tatsu.contexts.state.ParseState.__init__': 'False',
         f'{CORE}.cut': 'True',
     }
-    handover_pushers = {f.qualname for f in _handover_pushers(a)}
+    handover_pushers = {f.qualname for f in _handover_pushers(a)} | _handover_helpers(a)
     seen = set()
     for f in a.p.functions.values():
         for n in walk_no_defs(f.node):
@@ -300,7 +329,7 @@ def _check_transparent(a, rep, iso):
     class IsoSem(ScopeSem):
         def stmt(self, ex, fn, node, state):
             depth, flags = state
-            if fn is iso and isinstance(node, ast.Assign):
+            if (fn is iso or ex.in_extent(fn)) and isinstance(node, ast.Assign):
                 if isinstance(node.value, ast.Attribute) and node.value.attr == 'cutseen' and not any(x.startswith('closed:') for x in flags) \
                         and isinstance(node.targets[0], ast.Name):
                     return (depth, frozenset(flags | {'saved'}))
